@@ -74,7 +74,7 @@ def opsC20 : Handler := fun st fields =>
   -- Unit(str): parsed expression, and str()/repr() of the result
   | ["c20.parse", cps] =>
     match cpsToChars cps with
-    | none => some (st, "err\tUnitParseError")      -- lone surrogates: UnicodeEncodeError inside the try
+    | none => some (st, "err\toutOfVocabulary")     -- lone surrogates are no characters of a unit string
     | some cs =>
       match parseChars cs with
       | .ok e => some (st, exprOut e ++ s!"\t{charsToCps (unitStr e).toList}\t{charsToCps (unitRepr e).toList}")
